@@ -2,6 +2,7 @@ import BiotiteModel.Proofs.C04
 import BiotiteModel.Proofs.C04Mask
 import BiotiteModel.Proofs.C04Altloc
 import BiotiteModel.Gen.C04
+import BiotiteModel.Proofs.C04Expected
 /-!
 # C04 — property theorems (a structure survives a CIF / BinaryCIF write–read cycle)
 
@@ -50,11 +51,50 @@ and one atom pair (C–N for amino acids, O3'–P for nucleotides — no mixed p
 classes are the ones the fixture dictionary is classified by. -/
 theorem C04_gen_guards :
     Gen.C04.canonShape = "and-chain" ∧ Gen.C04.canonTerms = 5 ∧ Gen.C04.canonCompareTerms = 4 ∧
-    Gen.C04.canonKinds = [("canonical_aa_list", "C", "N"), ("canonical_nucleotide_list", "O3'", "P")] ∧
+    Gen.C04.canonKinds = [("aa", "C", "N"), ("nuc", "O3'", "P")] ∧
     Gen.C04.altlocUsesIsalpha = false ∧
     Gen.C04.peptideLinks = ["PEPTIDE LINKING", "L-PEPTIDE LINKING", "D-PEPTIDE LINKING"] ∧
     Gen.C04.nucleicLinks = ["RNA LINKING", "DNA LINKING"] := by
   decide
+
+/-- **Regenerated = snapshot** (default argument values of `get_structure`, `set_structure`, `get_model_count`): every fact of this group extracted from the source on this run
+equals the fact the model was written against (`Proofs/C04Expected.lean`). -/
+theorem C04_gen_facts_defaults :
+    ∀ k ∈ ["defaults.get_model_count", "defaults.get_structure", "defaults.set_structure"],
+      Gen.C04.facts.lookup k = Expected.facts.lookup k ∧ (Gen.C04.facts.lookup k).isSome = true := by
+  decide +kernel
+
+/-- **Regenerated = snapshot** (exception classes raised by the public functions, the matchers, the writers, the altloc dispatcher and the non-empty check, in source order): every fact of this group extracted from the source on this run
+equals the fact the model was written against (`Proofs/C04Expected.lean`). -/
+theorem C04_gen_facts_raises :
+    ∀ k ∈ ["raises.altloc", "raises.chem_comp_bond_writer", "raises.get_structure", "raises.matchers", "raises.non_empty_check", "raises.set_structure"],
+      Gen.C04.facts.lookup k = Expected.facts.lookup k ∧ (Gen.C04.facts.lookup k).isSome = true := by
+  decide +kernel
+
+/-- **Regenerated = snapshot** (column names and their order, key columns of `struct_conn`, `1_555`, masks, `HETATM`/`ATOM`, charge format, reader defaults (`-1`, `''`, `0`), reserved names, `box[0]`, `upper`/`lower`): every fact of this group extracted from the source on this run
+equals the fact the model was written against (`Proofs/C04Expected.lean`). -/
+theorem C04_gen_facts_columns :
+    ∀ k ∈ ["chem_comp_bond.order_case", "chem_comp_bond.read_columns", "columns.atom_site+cell", "columns.chem_comp_bond", "columns.struct_conn", "reader.as_array_args", "reader.consts", "set_structure.box_index", "set_structure.format_specs", "set_structure.name_lists", "set_structure.strings", "struct_conn.colname_consts", "struct_conn.matched_columns", "struct_conn.order_case", "struct_conn.read_columns", "struct_conn.written_key_columns"],
+      Gen.C04.facts.lookup k = Expected.facts.lookup k ∧ (Gen.C04.facts.lookup k).isSome = true := by
+  decide +kernel
+
+/-- **Regenerated = snapshot** (comparison operators and constants of the guards: matcher threshold and `<=`, canonical link terms, bond split, model index checks, altloc options): every fact of this group extracted from the source on this run
+equals the fact the model was written against (`Proofs/C04Expected.lean`). -/
+theorem C04_gen_facts_guards :
+    ∀ k ∈ ["altloc.options", "bond_split.ops", "canon.compare_terms", "canon.shape", "find.switch", "find.threshold", "get_structure.model_guards", "model_filter.calls", "model_filter.ops"],
+      Gen.C04.facts.lookup k = Expected.facts.lookup k ∧ (Gen.C04.facts.lookup k).isSome = true := by
+  decide +kernel
+
+/-- **Regenerated = snapshot** (`filter_highest_occupancy_altloc` (strict `>`, start −1.0, `sorted(set())`) and `_connect_inter_residue` in bonds.pyx (`!=` chain, `> 1`, C/N, O3'/P, SINGLE)): every fact of this group extracted from the source on this run
+equals the fact the model was written against (`Proofs/C04Expected.lean`). -/
+theorem C04_gen_facts_filter_and_pyx :
+    ∀ k ∈ ["filter.occupancy.id_order", "filter.occupancy.init", "filter.occupancy.ops", "pyx.link.atom_names", "pyx.link.bond_type", "pyx.link.chain_guard", "pyx.link.res_id_guard"],
+      Gen.C04.facts.lookup k = Expected.facts.lookup k ∧ (Gen.C04.facts.lookup k).isSome = true := by
+  decide +kernel
+
+/-- No fact is extracted that the snapshot does not know, and none is missing. -/
+theorem C04_gen_facts_keys : Gen.C04.facts.map (·.1) = Expected.facts.map (·.1) := by
+  decide +kernel
 
 /-! ## Which bond types survive -/
 
